@@ -90,7 +90,8 @@ class Harness:
                 if (base, why) not in self.out_of_subset:
                     self.out_of_subset.append((base, why))
                 fuc.out_of_subset = why
-        if not any(r.ctx.obligations for r in results):
+        all_unexpected = results and all(r.outcome == 'raise' and 'expected-raise' not in r.ctx.notes for r in results)
+        if not any(r.ctx.obligations for r in results) and not all_unexpected:
             why = '; '.join(sorted({f'{type(r.value).__name__}: {r.value}'[:160] for r in results if r.outcome == 'raise'}))
             self.vacuous.append(base + (f' [every path raised: {why}]' if why else ''))
         for pi, r in enumerate(results):
